@@ -280,6 +280,35 @@ def eval_group(env, group, tier):
                 else:
                     r.update(status='ok', sig=tuple(x[2] for x in rows))
                 outs.append(r)
+            # size literals against archive members: a member's size is its own, not its archive's
+            b3 = io.BytesIO()
+            with zipfile.ZipFile(b3, 'w', zipfile.ZIP_STORED) as z:
+                z.writestr(zipfile.ZipInfo('tiny6', (2020, 1, 2, 3, 4, 6)), b'tiny!!')
+                z.writestr(zipfile.ZipInfo('pad300k', (2020, 1, 2, 3, 4, 6)), b'p' * 300000)
+            b4 = io.BytesIO()
+            with zipfile.ZipFile(b4, 'w', zipfile.ZIP_DEFLATED) as z:
+                z.writestr(zipfile.ZipInfo('huge1m', (2020, 1, 2, 3, 4, 6)), b'h' * 1048576, zipfile.ZIP_DEFLATED)
+            core.materialise(root, {'big.zip': F(data=b3.getvalue()), 'small.zip': F(data=b4.getvalue())})
+            sizes = {'z.zip': len(b2.getvalue()), 'plain1536': 1536, 'm1536': 1536, 'm1678123': 1678123, 'm0': 0, 'big.zip': len(b3.getvalue()),
+                     'small.zip': len(b4.getvalue()), 'tiny6': 6, 'pad300k': 300000, 'huge1m': 1048576}
+            for cond, f in (('size > 100k', lambda v: v > 102400), ('size < 1kb', lambda v: v < 1000), ('size >= 1m', lambda v: v >= 1048576),
+                            ('size between 1k and 2m', lambda v: 1024 <= v <= 2097152), ('size = 6', lambda v: v == 6), ('size <= 1.5k', lambda v: v <= 1536),
+                            ('size gt 0.25mb and size lt 1.2mib', lambda v: 250000 < v < 1258291), ('size != 300000', lambda v: v != 300000),
+                            ("size > 1k and name like '%1%'", None)):
+                q = 'name from . archives where %s into list' % cond
+                o = env.run([q], cwd=root)
+                got = sorted(x.rsplit('] ', 1)[-1] for x in o.rows())
+                if f is None:
+                    exp = sorted(n for n, v in sizes.items() if v > 1024 and '1' in n)
+                else:
+                    exp = sorted(n for n, v in sizes.items() if f(v))
+                r = {'case': {'kind': 'fsize-archive', 'cond': cond}, 'nt': 0 < len(exp) < len(sizes), 'layer': 'size-literal-archive', 'trans': len(sizes)}
+                if o.rc != 0 or o.err or got != exp:
+                    r.update(status='viol', cls='size-literal-archive-member', sig=('szarc',),
+                             detail={'query': q, 'missing': sorted(set(exp) - set(got)), 'extra': sorted(set(got) - set(exp)), 'err': o.brief()['err']})
+                else:
+                    r.update(status='ok', sig=(cond, len(exp)))
+                outs.append(r)
         finally:
             env.rmtree(root)
     elif kind == 'doc':
